@@ -313,6 +313,16 @@ class Ctx:
             print(f"  stage={stage} failing-clause={verdict}", flush=True)
 
     # -- evidence -----------------------------------------------------------
+    def deviation(self, stage: str, inp: Any, what: str) -> None:
+        """A behaviour the specification does not have although no listed property forbids it (stricter conformance clause)."""
+        self.deviations = getattr(self, "deviations", 0) + 1
+        if self.deviations <= 5:
+            d = REPLAY / self.pid
+            d.mkdir(parents=True, exist_ok=True)
+            path = d / f"deviation-{stage}-{digest(inp)[:16]}.json"
+            path.write_text(cj({"stage": stage, "input": inp}))
+            print(f"SPEC-DEVIATION check={self.pid} stage={stage} {what} replay={path}", flush=True)
+
     def write_evidence(self) -> None:
         EVID.mkdir(exist_ok=True)
         cov = {
@@ -328,6 +338,7 @@ class Ctx:
             "exhaustive": self.exhaustive,
             "skipped_precondition": self.skipped,
             "stages": self.stage_info,
+            "spec_deviations": getattr(self, "deviations", 0),
             "known_findings_hit": [{"finding": k, "cases": self.known_counts.get(k, 0), "example_input": self.known_examples.get(k)} for k in self.known_hits],
             "checker_cmd": "; ".join(self.checker_cmds[:6]),
         }
@@ -542,7 +553,12 @@ def run_stage(ctx: Ctx, stage: Stage, inputs: Optional[List[Any]] = None) -> Non
             info["tags"][t] = info["tags"].get(t, 0) + 1
         if stage.nontrivial(c):
             ctx.nontrivial.add(digest(c))
-        if v == "ok":
+        if v.startswith("note:"):
+            # the case deviates from the specification in a way no listed property forbids: reported, never a violation
+            info["ok"] += 1
+            info["spec_deviations"] = info.get("spec_deviations", 0) + 1
+            ctx.deviation(stage.name, inputs[i], v[5:])
+        elif v == "ok":
             info["ok"] += 1
             if info["ok"] in (1, 17):
                 ctx.sample({"stage": stage.name, "case": c})
